@@ -175,7 +175,9 @@ func (c *c10Fz) num() string {
 	return c.g.Str("0", "1", "-1", "2", "3", "5", "-2", "-5", "7", "10", "100", "-100", "2**31", "2**62", "2**63", "2**63-1", "-2**63", "-2**63-1", "2**64", "-2**64", "10**30", "-10**30", "None", "True")
 }
 
-func (c *c10Fz) small() string { return c.g.Str("0", "1", "-1", "2", "3", "5", "-2", "-5", "7", "None") }
+func (c *c10Fz) small() string {
+	return c.g.Str("0", "1", "-1", "2", "3", "5", "-2", "-5", "7", "None")
+}
 
 // a repeat count: small, or so large that the request fails at once (counts in between measure allocation, not robustness)
 func (c *c10Fz) rep() string {
@@ -336,7 +338,7 @@ func (c *c10Fz) stmt() string {
 	case 18:
 		kind("numeric-extremes")
 		a, b, d := c.num(), c.num(), c.small()
-		return g.Str("round("+g.Str("1.5", "2.675", "1e308", "float('nan')", "5", "2**70")+", "+b+")", "divmod("+a+", "+b+")", a+" // "+b, a+" % "+b, a+" ** "+d, "pow("+a+", "+d+", "+b+")", a+" << "+d, a+" >> "+b, "math.factorial("+d+")", "math.ldexp(1.5, "+b+")", "math.pow("+a+", "+d+")", "float("+a+")", "abs("+a+")", "-("+a+")", "~("+a+")", a+" / "+b, "hash("+a+")", "bin("+a+")", "hex("+a+")", "oct("+a+")", "chr("+a+")", "bytes(["+a+"])", "bytes("+d+")", "(" + a + ").bit_length()", "math.sqrt("+a+")", "math.floor("+g.Str("1e308", "float('inf')", "float('nan')", "2.5")+")")
+		return g.Str("round("+g.Str("1.5", "2.675", "1e308", "float('nan')", "5", "2**70")+", "+b+")", "divmod("+a+", "+b+")", a+" // "+b, a+" % "+b, a+" ** "+d, "pow("+a+", "+d+", "+b+")", a+" << "+d, a+" >> "+b, "math.factorial("+d+")", "math.ldexp(1.5, "+b+")", "math.pow("+a+", "+d+")", "float("+a+")", "abs("+a+")", "-("+a+")", "~("+a+")", a+" / "+b, "hash("+a+")", "bin("+a+")", "hex("+a+")", "oct("+a+")", "chr("+a+")", "bytes(["+a+"])", "bytes("+d+")", "("+a+").bit_length()", "math.sqrt("+a+")", "math.floor("+g.Str("1e308", "float('inf')", "float('nan')", "2.5")+")")
 	case 19:
 		kind("range-extremes")
 		rr := "range(" + c.num() + ", " + c.num() + ", " + c.num() + ")"
